@@ -240,28 +240,45 @@ func c16Run(fs fstest.MapFS) (out string) {
 	return w.String()
 }
 
-// c16BuiltinNamed: the open finding C16 builtin-named-function. A package-level function spelled like one of the
-// builtins that are ordinary globals (println, print, ...) is found by a reference compiled after its declaration,
-// while a reference compiled before it takes the builtin: the two layouts behave differently.
+// c16BuiltinNamed: a package-level function spelled like a builtin (the ones that are ordinary globals: println,
+// print; the ones the call compiler knows: len, copy, delete, append, panic) hides the builtin in every function,
+// method and initialiser of the package, wherever it is declared - before or after its callers, in the same or in
+// another file (fix 36683fb; the former open finding builtin-named-function: references compiled before the
+// declaration took the builtin)
 func (c *Ctx) c16BuiltinNamed() {
-	const id = "builtin-named-function"
-	f, known := c.Findings[id]
-	use := "func Use() int {\n\treturn println(20)\n}"
-	def := "func println(a int) int {\n\treturn a*2 + 2\n}"
-	main := "func Main() {\n\tx := Use()\n\tprint(\"use \")\n\tprint(x)\n\tprint(\"\\n\")\n}"
-	run := func(order ...string) string {
-		return c16Run(fstest.MapFS{"app/a.go": &fstest.MapFile{Data: []byte("package app\n\n" + strings.Join(order, "\n\n") + "\n")}})
+	for _, name := range []string{"println", "print", "len", "copy", "delete", "append", "panic"} {
+		def := "func " + name + "(a int) int {\n\treturn a*2 + 2\n}"
+		use := "func Use() int {\n\treturn " + name + "(20)\n}"
+		meth := "type T struct {\n\tn int\n}\n\nfunc (t *T) M() int {\n\treturn " + name + "(t.n)\n}"
+		vr := "var V = " + name + "(3)"
+		main := "func Main() {\n\tt := &T{n: 1}\n\tfmt.Println(Use(), t.M(), V, " + name + "(0))\n}"
+		want := "42 4 8 2\n"
+		file := func(decls ...string) *fstest.MapFile {
+			return &fstest.MapFile{Data: []byte("package app\n\nimport \"fmt\"\n\n" + strings.Join(decls, "\n\n") + "\n")}
+		}
+		bare := func(decls ...string) *fstest.MapFile {
+			return &fstest.MapFile{Data: []byte("package app\n\n" + strings.Join(decls, "\n\n") + "\n")}
+		}
+		layouts := map[string]fstest.MapFS{
+			"declared first":               {"app/a.go": file(def, use, meth, vr, main)},
+			"declared last":                {"app/a.go": file(use, meth, vr, main, def)},
+			"declared between its callers": {"app/a.go": file(meth, def, main, use, vr)},
+			"declared in the first file":   {"app/a.go": bare(def), "app/b.go": file(use, meth, vr, main)},
+			"declared in the last file":    {"app/a.go": file(use, main), "app/b.go": bare(meth, vr), "app/z.go": bare(def)},
+			"declared in a file between":   {"app/a.go": bare(meth), "app/m.go": bare(def, vr), "app/z.go": file(main, use)},
+		}
+		for _, l := range sortedKeys(layouts) {
+			c.Rep.Oracle["package-permutation"]++
+			c.Rep.Count("builtin-named-layout")
+			if got := c16Run(layouts[l]); got != want {
+				var text []string
+				for _, f := range sortedKeys(layouts[l]) {
+					text = append(text, "// "+f+"\n"+string(layouts[l][f].Data))
+				}
+				c.Rep.Violate(Violation{Kind: "oracle", Cut: "package-permutation", Input: "func " + name + " " + l + ":\n" + strings.Join(text, "\n"), Impl: got, Oracle: want})
+			}
+		}
 	}
-	a, b := run(def, use, main), run(use, def, main)
-	c.Rep.Oracle["package-permutation"]++
-	if a == b {
-		return // no longer fails
-	}
-	if known {
-		c.Rep.Known = append(c.Rep.Known, id+": "+f.What+" (witness: declared first "+strings.TrimSpace(a)+" / declared after its use "+strings.TrimSpace(strings.SplitN(b, "\n", 2)[0])+")")
-		return
-	}
-	c.Rep.Violate(Violation{Kind: "oracle", Cut: "package-permutation", Input: "func println declared before / after func Use, which calls it", Impl: b, Oracle: a})
 }
 
 func runC16(c *Ctx) error {
